@@ -144,6 +144,31 @@ def handle : P String := do
       match assembleB p n calls with
       | none => pure "UNINIT"
       | some st => pure s!"MB {showPattern p} {bh} {bw} {showRatsL st.data.toList.flatten}"
+  | "hist" | "histj" =>
+    -- five requests [warm-up, real, warm-up, real, real] served by one process
+    skipToRec
+    let kind ← tok
+    match kind with
+    | "V" =>
+      let n ← nat; let reqs ← listOf (listOf callP)
+      let outs := reqs.map fun calls =>
+        let d := assembleVec n (calls.map fun c => (c.alpha, c.rows, c.locVec))
+        s!"W {showRatsL d.toList}"
+      pure (" ".intercalate (s!"H {reqs.length}" :: outs))
+    | _ =>
+      let nT ← nat; let nS ← nat; let reqs ← listOf (listOf callP)
+      let first := reqs.headD []
+      let tm := first.map (·.rows); let sm := first.map (·.cols)
+      let g := if kind == "M1" then symbolicGraph1 nT tm else symbolicGraph2 nT nS tm sm
+      match g with
+      | none => pure "ABORT"
+      | some g =>
+        let p := Pattern.ofGraph g
+        let res := assembleSeq #[] (reqs.map fun calls => (⟨p, calls.map Call.toCell⟩ : Request Rat))
+        let outs := res.map fun r => match r with
+          | none => "UNINIT"
+          | some d => showMatrix p d
+        pure (" ".intercalate (s!"H {reqs.length}" :: outs))
   | "bgsd" =>
     -- one Burgers job task over the cells in natural order: the sequence of `local_delta` values
     skipToRec
